@@ -97,7 +97,7 @@ func poison(r *core.Rng) string {
 	case 1:
 		imagehash.VerifPoisonPools(func(i int) float64 { return 1e30 }, func(i int) float32 { return 1e30 })
 	case 2:
-		imagehash.VerifPoisonPools(func(i int) float64 { return float64((i*7919)%256) }, func(i int) float32 { return float32((i * 7919) % 256) })
+		imagehash.VerifPoisonPools(func(i int) float64 { return float64((i * 7919) % 256) }, func(i int) float32 { return float32((i * 7919) % 256) })
 	default:
 		imagehash.VerifPoisonPools(func(i int) float64 { return -float64(i % 13) }, func(i int) float32 { return -float32(i % 13) })
 	}
